@@ -385,6 +385,23 @@ def gen_trkccw(rng):
     return sc
 
 
+def gen_ppblock(rng):
+    """pre-emptive priorities at a node whose customers get blocked: a blocked customer keeps its server, it is not a
+    candidate victim (it is not in service any more)"""
+    K = 2
+    sc = gen_tandem(rng, N=2, K=K)
+    sc["prio"] = [0, 1]
+    sc["syscap"] = INF
+    sc["nodes"][0].update({"kind": "std", "c": rng.choice([1, 2, 2]), "qcap": INF, "pp": rng.choice([1, 2, 3])})
+    sc["nodes"][1].update({"kind": "std", "c": 1, "qcap": rng.choice([0, 0, 1])})
+    sc["arrS"] = [[samples(rng, 2, 5, 2), samples(rng, 1, 3, 2)], [[], []]]
+    sc["svcS"] = [[samples(rng, 1, 3, 2), samples(rng, 1, 4, 2)], [samples(rng, 3, 7, 2), samples(rng, 3, 7, 2)]]
+    sc["route"] = [tm([[0, 4], [0, 0]]), tm([[0, rng.choice([2, 4])], [0, 0]])]
+    sc.pop("batchS", None)
+    sc["T"] = rng.randint(15, 40)
+    return sc
+
+
 def gen_reroute(rng):
     """'reroute' pre-emption (priority pre-emption or pre-emptive schedule): documented capacity exception"""
     K = 2
@@ -986,6 +1003,7 @@ def gen_stopcount(rng):
 
 
 FAMILIES = {
+    "ppblock": gen_ppblock,
     "overblock": gen_overblock,
     "trkccw": gen_trkccw,
     "preblock": gen_preblock,
